@@ -79,6 +79,38 @@ EXPR_CTX = [
     ("stmt", "{E}"),
     ("assign", "_v = {E}"),
     ("annassign", "_v: int = {E}"),
+    # variable annotations are evaluated eagerly at module and class level (not inside functions)
+    ("var-annotation", "_v: {E} = 0"),
+    ("var-annotation-bare", "_v: {E}"),
+    ("var-annotation-paren-target", "(_v): {E} = 0"),
+    ("var-annotation-attr-target", "class _O:\n    pass\n_o = _O()\n_o.x: {E} = 0"),
+    ("var-annotation-subscript-target", "_d = {{}}\n_d['k']: {E} = 0"),
+    ("class-var-annotation", "class _K:\n    x: {E} = 0"),
+    ("class-var-annotation-bare", "class _K:\n    x: {E}"),
+    ("dataclass-field-annotation", "import dataclasses\n@dataclasses.dataclass\nclass _K:\n    x: {E} = 0"),
+    ("namedtuple-field-annotation", "import typing\nclass _K(typing.NamedTuple):\n    x: {E} = 0"),
+    ("nested-class-var-annotation", "class _K:\n    class _L:\n        x: {E}"),
+    ("var-annotation-in-if", "if True:\n    _v: {E} = 0"),
+    ("var-annotation-in-try", "try:\n    _v: {E}\nfinally:\n    pass"),
+    ("var-annotation-in-with", "import contextlib\nwith contextlib.nullcontext():\n    _v: {E} = 0"),
+    ("var-annotation-in-match", "match 1:\n    case _:\n        _v: {E} = 0"),
+    ("var-annotation-value-and-annotation", "_v: {E} = ({E})"),
+    ("posonly-default", "def _f(a={E}, /):\n    pass"),
+    ("vararg-annotation", "def _f(*a: {E}, **k: int):\n    pass"),
+    ("kwarg-annotation", "def _f(**k: {E}):\n    pass"),
+    ("lambda-kwdefault", "(lambda *, a={E}: a)()"),
+    ("method-annotation", "class _K:\n    def m(self, a: {E} = 0) -> int:\n        pass"),
+    ("walrus-if-test", "if (_w := {E}):\n    pass"),
+    ("walrus-while-test", "while (_w := {E}):\n    break"),
+    ("walrus-comp-if", "[0 for _ in range(1) if (_w := {E})]"),
+    ("with-as-attr", "import contextlib\nclass _O:\n    pass\n_o = _O()\nwith contextlib.nullcontext({E}) as _o.x:\n    pass"),
+    ("for-target-subscript", "_l = [0]\nfor _l[0 if {E} else 0] in [1]:\n    pass"),
+    ("aug-target-subscript", "_l = [0]\n_l[0 if {E} else 0] += 1"),
+    ("global-try-else-finally", "try:\n    pass\nexcept Exception:\n    pass\nelse:\n    _a = {E}\nfinally:\n    _b = 1"),
+    ("type-alias-value-forced", "type _T = {E}\n_T.__value__"),
+    ("class-body-fstring", "class _K:\n    _s = f\"{{{E}}}\""),
+    ("decorator-call-arg", "def _d(x):\n    return lambda f: f\n@_d({E})\ndef _g():\n    pass"),
+    ("class-decorator-call-arg", "def _d(x):\n    return lambda c: c\n@_d({E})\nclass _K:\n    pass"),
     ("augassign", "_v = 0\n_v += 0 if {E} else 0"),
     ("tuple-assign", "_a, _b = 0, {E}"),
     ("starred-assign", "*_a, = [{E}]"),
